@@ -537,6 +537,50 @@ var corruptions = []corruption{
 		}
 		return false
 	}},
+	{"quantity-non-hex", func(ex *simnode.Exchange, i int, r *core.Rand) bool {
+		// a QUANTITY the client reads (the header's number; a log's block number, transaction index, log index) with a
+		// character that is no hex digit: "0x1g", "0x1 ", "0x-3"
+		if i >= len(ex.Responses) || i >= len(ex.Requests) {
+			return false
+		}
+		spoil := func(s string) string {
+			switch r.Intn(3) {
+			case 0:
+				return s + core.Pick(r, []string{"g", " ", "z"})
+			case 1:
+				return "0x-" + s[2:]
+			}
+			b := []byte(s)
+			b[2+r.Intn(len(b)-2)] = core.Pick(r, []byte("gG x"))
+			return string(b)
+		}
+		switch ex.Requests[i].Method {
+		case "eth_getBlockByNumber":
+			m := resultMap(ex.Responses[i])
+			if m == nil {
+				return false
+			}
+			if s, ok := m["number"].(string); ok && len(s) > 2 {
+				m["number"] = spoil(s)
+				return true
+			}
+		case "eth_getLogs":
+			arr := resultArr(ex.Responses[i])
+			if len(arr) == 0 {
+				return false
+			}
+			m, ok := arr[r.Intn(len(arr))].(map[string]any)
+			if !ok {
+				return false
+			}
+			k := core.Pick(r, []string{"blockNumber", "transactionIndex", "logIndex"})
+			if s, ok := m[k].(string); ok && len(s) > 2 {
+				m[k] = spoil(s)
+				return true
+			}
+		}
+		return false
+	}},
 	{"non-hex-character", func(ex *simnode.Exchange, i int, r *core.Rand) bool {
 		// a payload hex string (log data, a topic, transaction input, an address) with one character that is no hex digit
 		if i >= len(ex.Responses) {
@@ -754,7 +798,7 @@ func runC07(e *core.Env) error {
 					if tag == "double" {
 						verdict, want = sortLogs(verdict), sortLogs(honest)
 					}
-					if tag == "non-hex-character" {
+					if tag == "non-hex-character" || tag == "quantity-non-hex" {
 						verdict, want = impl, "err" // an undecodable value is refused, not zero-filled or truncated
 					}
 					if tag == "number-beyond-64-bits" {
